@@ -342,22 +342,22 @@ class ZemaxFileReader:
         self._current_surf_data['index'] = float(data[4])
         self._current_surf_data['abbe'] = float(data[5])
 
-        # Generate a Material object from the material name & manufacturer
-        try:
-            # Try to create a Material object from the material name
-            self._current_surf_data['material'] = Material(material)
-        except ValueError:
-
-            # If the material name is not recognized, try to create a Material
-            # object from the material name and manufacturer
-            if 'glass_catalogs' in self.data:
-                for manufacturer in self.data['glass_catalogs']:
-                    try:
-                        self._current_surf_data['material'] = \
-                            Material(material, manufacturer.lower())
-                        break
-                    except ValueError:
-                        continue
+        # Generate a Material object from the material name & manufacturer.
+        # The catalogues named in the file (GCAT) take precedence: the same
+        # name can denote another vendor's glass, a crystal or a gas
+        for manufacturer in self.data.get('glass_catalogs', []):
+            try:
+                self._current_surf_data['material'] = \
+                    Material(material, manufacturer.lower())
+                break
+            except ValueError:
+                continue
+        else:
+            try:
+                # no catalogue named (or none knows the glass): name alone
+                self._current_surf_data['material'] = Material(material)
+            except ValueError:
+                pass
 
         # If the material is still not recognized, use model glass
         if not isinstance(self._current_surf_data['material'], BaseMaterial):
